@@ -135,10 +135,11 @@ def idPrefixes (dayStr : Nat → String) (days : Nat → Nat → List Nat) (cat 
 def windowPred (s e : Option Nat) (lm : Nat) : Bool :=
   (match s with
    | none => true
-   | some s => decide (s ≤ lm)) &&
+   | some s => PlaybackModel.Atoms.Cmp.nat PlaybackModel.Source.windowStartCmp s lm) &&     -- `start_date <= o.last_modified`
   (match e with
    | none => true
-   | some e => decide (lm ≤ e))
+   | some e => PlaybackModel.Atoms.Cmp.nat PlaybackModel.Source.windowEndCmp lm e)          -- `o.last_modified <= end_date`
+  -- the operators as they stand in the source; the theorems need both to mean `<=` (windowPred_def)
 
 /-! ### what the S3 content filter sees: `json.loads` of the jsonpickle text of the metadata (K3) -/
 
